@@ -266,7 +266,7 @@ pub fn run(ctx: &Ctx) -> i32 {
     let mut acc = par::sweep(
         total,
         1 << 16,
-        |_| Interp::new().expect("interpreter"),
+        |_| Interp::must_new(),
         |it, acc: &mut Acc, i| {
             let (v, class): (Option<V>, &str) = if i < n_float {
                 (real(if thorough { i as u32 } else { float_class(i) }), "real")
@@ -313,7 +313,7 @@ pub fn run(ctx: &Ctx) -> i32 {
     );
     // ---- results of the C09 grid (every representation arithmetic produces) ----
     {
-        let mut it = Interp::new().expect("interpreter");
+        let mut it = Interp::must_new();
         for x in grid(true) {
             if let Ok(Some(v)) = it.eval_raw(&x.text) {
                 if let Value::Number(Number::Real(f)) = &v {
@@ -349,7 +349,7 @@ pub fn run(ctx: &Ctx) -> i32 {
                 t.extend(trees(n, &atoms));
             }
             t.extend(chains(6));
-            (Interp::new().expect("interpreter"), t)
+            (Interp::must_new(), t)
         },
         |(it, t), acc: &mut Acc, i| {
             let v = &t[i as usize];
